@@ -70,11 +70,13 @@ func firstLines(s string, n int) string {
 	return strings.Join(ls, " | ")
 }
 
-// topRepoFrame extracts "path/file.go:line" of the innermost stack frame that
-// is in the compiler's own packages (not the simulator, not the Go runtime).
+// topRepoFrame names the innermost stack frame that is in the compiler's own
+// packages (not the simulator, not the Go runtime) by its function, e.g.
+// "diagnostics.(*Diagnostic).WithLabel". Function names survive unrelated
+// edits of a file; line numbers do not.
 func topRepoFrame(stack string) string {
 	lines := strings.Split(stack, "\n")
-	for _, l := range lines {
+	for k, l := range lines {
 		l = strings.TrimSpace(l)
 		i := strings.Index(l, "/sim/")
 		if i < 0 || !strings.Contains(l, ".go:") {
@@ -84,10 +86,22 @@ func topRepoFrame(stack string) string {
 		if strings.HasPrefix(p, "zsim/") || strings.HasPrefix(p, "zsim_harness.go") {
 			continue
 		}
-		if j := strings.Index(p, " "); j >= 0 {
-			p = p[:j]
+		if k == 0 {
+			continue
 		}
-		return p
+		fn := strings.TrimSpace(lines[k-1])
+		if j := strings.LastIndex(fn, "("); j > 0 {
+			fn = fn[:j]
+		}
+		fn = strings.TrimPrefix(fn, "compiler/internal/")
+		fn = strings.TrimPrefix(fn, "compiler/")
+		if j := strings.LastIndex(fn, "/"); j >= 0 {
+			fn = fn[j+1:]
+		}
+		if fn == "" {
+			continue
+		}
+		return fn
 	}
 	return "?"
 }
@@ -714,6 +728,8 @@ func JudgeFor(prop string) Judge {
 	switch prop {
 	case "C14":
 		return JudgeC14
+	case "C13":
+		return JudgeLast(func(u *Unit, rr *RunResult, i int) []Issue { return judgeC13Unit(u, rr, i) })
 	}
 	return nil
 }
